@@ -72,7 +72,7 @@ class LeanStatus:
         return [o for o in self.obligations if o["status"] != "discharged"]
 
 
-THEOREM_RE = re.compile(r"^(?:@\[[^\]]*\]\s*)?(?:private\s+|protected\s+)?theorem\s+([A-Za-z_][\w'.]*)", re.M)
+THEOREM_RE = re.compile(r"^(?:@\[[^\]]*\]\s*)?(?:private\s+|protected\s+)?theorem\s+([A-Za-z_][\w'.?!]*)", re.M)
 NAMESPACE_RE = re.compile(r"^namespace\s+([\w.]+)", re.M)
 
 
@@ -90,7 +90,7 @@ def theorems_in(path: Path) -> list[tuple[str, int, int]]:
         if m and stack and stack[-1] == m.group(1):
             stack.pop()
             continue
-        m = re.match(r"^(?:@\[[^\]]*\]\s*)?(?:private\s+|protected\s+)?theorem\s+([\w.']+)", line)
+        m = re.match(r"^(?:@\[[^\]]*\]\s*)?(?:private\s+|protected\s+)?theorem\s+([\w.'?!]+)", line)
         if m:
             starts.append((".".join(stack + [m.group(1)]), n))
     out = []
